@@ -5,8 +5,10 @@ Require Import Gengo.Base.Str Gengo.Base.Sexp Gengo.Base.StrOrder Gengo.Model.Un
                Gengo.Proofs.UniverseProofs Gengo.Proofs.CanonProofs.
 
 (* the object a child occurrence (walked without a name override) must resolve to *)
+(* ... and a type parameter (which is not filed in the universe at all) is described by its own name *)
 Definition child_is (v2 : bool) (p : prog) (use : option name) (t : N) (n : name) : Prop :=
-  forall k, node_key v2 p use t = Some k -> n = canon v2 k.
+  (forall k, node_key v2 p use t = Some k -> n = canon v2 k) /\
+  (forall ts, plookup t p = Some (ts, STypeParam) -> n = match use with Some x => x | None => name_of_string v2 ts end).
 
 Lemma update_lookup_same u o g e : nlookup o (objs u) = Some e -> nlookup o (objs (update u o g)) = Some (g e).
 Proof. intros H. unfold update. rewrite H. simpl. apply nlookup_nset_same. Qed.
@@ -22,8 +24,11 @@ Variable f : nat.
 Notation rec := (walk v2 p f).
 
 Lemma rec_canon : forall u use t u' o, canonical v2 u -> rec u use t = Some (u', o) ->
-  canonical v2 u' /\ forall k, node_key v2 p use t = Some k -> o = canon v2 k.
-Proof. intros. eapply walk_canonical; eauto. Qed.
+  canonical v2 u' /\ child_is v2 p use t o.
+Proof.
+  intros u use t u' o C H. destruct (walk_canonical v2 p Hok _ _ _ _ _ _ C H) as [C' K]. split; [exact C'|]. split; [exact K|].
+  intros ts Ep. destruct f as [|g]; [discriminate|]. simpl in H. unfold walk_step in H. rewrite Ep in H. injection H as _ <-. reflexivity.
+Qed.
 Lemma rec_ext : forall u use t u' o, rec u use t = Some (u', o) -> ext u u'.
 Proof. intros. eapply walk_ext; eauto. Qed.
 
@@ -220,3 +225,8 @@ Proof.
   eexists. split; [exact Hfin|]. split; [exact Hkind|]. exact F.
 Qed.
 End Faithful.
+
+(* the object any walk returns is the one its node denotes *)
+Theorem walk_child_is v2 p : named_ok v2 p -> forall fuel u use t u' o, canonical v2 u ->
+  walk v2 p fuel u use t = Some (u', o) -> canonical v2 u' /\ child_is v2 p use t o.
+Proof. intros Hok fuel. exact (rec_canon v2 p Hok fuel). Qed.
